@@ -14,6 +14,11 @@ pub mod c07;
 pub mod c09;
 pub mod c10;
 pub mod c11;
+pub mod scen;
+pub mod c13;
+pub mod c15;
+pub mod c17;
+pub mod c18;
 pub mod c19;
 
 pub fn run(id: &str, tier: &str) -> i32 {
@@ -27,6 +32,10 @@ pub fn run(id: &str, tier: &str) -> i32 {
         "C09" => c09::run(tier),
         "C10" => c10::run(tier),
         "C11" => c11::run(tier),
+        "C13" => c13::run(tier),
+        "C15" => c15::run(tier),
+        "C17" => c17::run(tier),
+        "C18" => c18::run(tier),
         "C19" => c19::run(tier),
         _ => {
             eprintln!("unknown property {id}");
@@ -55,6 +64,10 @@ pub fn replay(id: &str, path: &str) -> i32 {
         "C09" => c09::replay(&case),
         "C10" => c10::replay(&case),
         "C11" => c11::replay(&case),
+        "C13" => c13::replay(&case),
+        "C15" => c15::replay(&case),
+        "C17" => c17::replay(&case),
+        "C18" => c18::replay(&case),
         "C19" => c19::replay(&case),
         _ => {
             eprintln!("no replay for {id}");
